@@ -268,11 +268,20 @@ TFirstRace ==
                      rule |-> "gauge in flight = entries, pass = tokens, gauge after = 0, complete = tokens, on the node of the resource entered"])
     /\ UNCHANGED <<now, chains, live, exited, blocked, berr, acc, conc, g>>
 
+\* ----- more distinct resources than any internal bound of the library: each of n never-seen resources is entered once (inbound,
+\* batch b) and exited at a frozen clock; every one of them is accounted on its own node and on the inbound total.
+TManyRes ==
+    /\ IsEvent("manyres")
+    /\ LET ok == /\ Ev.escaped = 0 /\ Ev.blocked = 0 /\ Ev.missing = 0
+                 /\ Ev.in_pass = Ev.n * Ev.b /\ Ev.in_complete = Ev.n * Ev.b /\ Ev.in_conc = 0
+       IN Judge(ok, [tokens |-> Ev.n * Ev.b, rule |-> "every resource has a node that recorded its pass; the inbound total gained n*b passed and completed tokens; gauge unchanged"])
+    /\ UNCHANGED <<now, chains, live, exited, blocked, berr, acc, conc, g>>
+
 TInit ==
     /\ l = 1 /\ now = 0 /\ chains = (0 :> EmptyChain) /\ live = << >> /\ exited = {} /\ blocked = {} /\ berr = << >>
     /\ acc = << >> /\ conc = << >>
     /\ g = [tr |-> 0, mode |-> "", pbl |-> 500, vint |-> 1000, pint |-> 10000, silent |-> {}]
     /\ failed = FALSE
-TNext == TNew \/ TMChain \/ TSlot \/ TEntry \/ TTerr \/ TExit \/ TTick \/ TNoop \/ TStress \/ TFirstRace
+TNext == TNew \/ TMChain \/ TSlot \/ TEntry \/ TTerr \/ TExit \/ TTick \/ TNoop \/ TStress \/ TFirstRace \/ TManyRes
 TSpec == TInit /\ [][TNext]_tvars
 =============================================================================
